@@ -543,6 +543,15 @@ impl World {
                         }
                     }
                 }
+                if pred.whys.iter().any(|(_, w)| matches!(w, model::Why::AfterMalformed)) {
+                    // a malformed response "makes that call fail, with the same rollback as any other
+                    // contract error" (C13): one was met in this tree and the state is not rolled back right
+                    for d in sd.iter_mut() {
+                        if !d.owners.contains(&"C13") {
+                            d.owners.push("C13");
+                        }
+                    }
+                }
                 discs.extend(sd);
             }
             discs.push(d);
@@ -584,6 +593,15 @@ impl World {
                     for d in sd.iter_mut() {
                         if !d.owners.contains(&"C01") {
                             d.owners.push("C01");
+                        }
+                    }
+                }
+                if pred.whys.iter().any(|(_, w)| matches!(w, model::Why::AfterMalformed)) {
+                    // a malformed response "makes that call fail, with the same rollback as any other
+                    // contract error" (C13): one was met in this tree and the state is not rolled back right
+                    for d in sd.iter_mut() {
+                        if !d.owners.contains(&"C13") {
+                            d.owners.push("C13");
                         }
                     }
                 }
@@ -820,6 +838,13 @@ impl TreeCheck {
                 }
             }
         }
+        if id == "C10" {
+            let d = query_storm(&mut w);
+            cx.label("probe:failing-query-storm");
+            if !report(&d, h.txs.len(), "a run of failing queries between two identical queries", cx)? {
+                return Ok(());
+            }
+        }
         if id == "C08" {
             let d = namespace_probe(&mut w);
             cx.label("probe:address-variants");
@@ -954,6 +979,57 @@ fn views_agree(w: &World) -> Vec<Disc> {
     out
 }
 
+/// C10: queries are pure - also the ones that fail. A smart query, a contract-info query and a
+/// balance query are asked, then a dozen queries that must fail (smart / raw / info queries about an
+/// address without contract, a balance query about a string that is no address), then the first
+/// three again: same answers, and the root store untouched.
+fn query_storm(w: &mut World) -> Vec<Disc> {
+    use cosmwasm_std::{BankQuery, WasmQuery};
+    let mut out = vec![];
+    w.enter();
+    let Some(target) = w.st.order.iter().find(|a| model::api().addr_validate(a).is_ok()).cloned() else {
+        return out;
+    };
+    let smart = |addr: &str| -> Vec<u8> { cosmwasm_std::to_json_vec(&QueryRequest::<XQuery>::Wasm(WasmQuery::Smart { contract_addr: addr.to_string(), msg: cosmwasm_std::to_json_binary(&PMsg { n: 424242 }).unwrap() })).unwrap() };
+    let info = |addr: &str| -> Vec<u8> { cosmwasm_std::to_json_vec(&QueryRequest::<XQuery>::Wasm(WasmQuery::ContractInfo { contract_addr: addr.to_string() })).unwrap() };
+    let bal = |addr: &str| -> Vec<u8> { cosmwasm_std::to_json_vec(&QueryRequest::<XQuery>::Bank(BankQuery::Balance { address: addr.to_string(), denom: DENOMS[0].to_string() })).unwrap() };
+    let probes = vec![smart(&target), info(&target), bal(&target)];
+    let root_before = scan(w.app.storage());
+    install(BTreeMap::new(), BTreeMap::new(), BTreeMap::new());
+    let ask = |w: &World, reqs: &[Vec<u8>]| -> Result<Vec<puppet::QRes>, String> { catch(|| reqs.iter().map(|r| puppet::raw_query(&w.app, r)).collect()) };
+    let first = match ask(w, &probes) {
+        Ok(a) => a,
+        Err(p) => {
+            out.push(Disc::new(&["C10"], panic_sig(&p), format!("a query panicked: {}", p)));
+            return out;
+        }
+    };
+    let nowhere = w.fx.nowhere.clone();
+    let storm: Vec<Vec<u8>> = (0..12).flat_map(|_| vec![smart(&nowhere), info(&nowhere), smart("not an address"), bal("not an address")]).collect();
+    match ask(w, &storm) {
+        Ok(answers) => {
+            if let Some(i) = answers.iter().position(|a| a.is_ok()) {
+                out.push(Disc::new(&["C10"], "query:nonexistent-answered", format!("query number {} about an address without contract / a string that is no address was answered {:?}", i, answers[i])));
+                return out;
+            }
+        }
+        Err(p) => {
+            out.push(Disc::new(&["C10"], panic_sig(&p), format!("a failing query panicked: {}", p)));
+            return out;
+        }
+    }
+    let second = ask(w, &probes).unwrap_or_default();
+    let _ = take_trace();
+    if first != second {
+        out.push(Disc::new(&["C10"], "query:not-idempotent", format!("the same three queries (smart, contract info, balance of {}) answered {:?}, and after 48 failing queries {:?}", target, first, second)));
+        return out;
+    }
+    if let Some(d) = diff_scans(&root_before, &scan(w.app.storage())) {
+        out.push(Disc::new(&["C10"], "query:changed-state", format!("queries changed chain storage: {}", d)));
+    }
+    out
+}
+
 /// C08: the key space is a function of the exact address. Storage written (through App's accessor)
 /// under a string that merely resembles a contract's address - other letter case, one character
 /// more or less, a separator appended, the empty string - is a different key space: no contract's
@@ -1041,7 +1117,7 @@ const RULES: &[(&str, &str, &str)] = &[
     ("C04", "exploration", "same generator with attributes/events/data on most nodes; oracle: AppResponse events and data of every successful call (and the events/data inside every Reply) equal the reference composition. Non-trivial call: successful tree of depth>=1 with >=1 reply; distinct = distinct serialised history"),
     ("C05", "exploration", "same generator biased to attached funds relative to balances (0, half, all, all+1, zero coins), block updates and sudo/migrate entry points; oracle: sender, funds, env.contract.address, env.block and own balance at entry of every trace entry equal the reference; overdraft => callee absent from the trace; balances afterwards. Non-trivial call: trace of >=3 entries; distinct = distinct serialised history"),
     ("C08", "exploration", "same generator with hostile storage keys (raw prefixes of bank/wasm/staking, other contracts' namespaces, empty key, equal keys across contracts); oracle: every node's full scan at entry equals its own contract's expected storage, raw queries / dump_wasm_raw / contract_storage agree, no other partition of the root store changes; at the end of every history, writes through contract_storage_mut under variants of the contracts' addresses (other letter case, one character more or less, separator or NUL appended, doubled, empty) must land in a key space of their own. Non-trivial call: trace of >=2 entries; distinct = distinct serialised history"),
-    ("C10", "exploration", "same generator with queries (bank balance/all/supply, wasm raw/smart/contract-info/code-info, custom; nested smart queries) at entry and after own writes on most nodes and as App-level query batches issued twice; oracle: storage unchanged by queries, second answer equals first, every in-contract result equals the reference evaluated on the state at that point of the tree. Non-trivial call: trace of >=2 entries; distinct = distinct serialised history"),
+    ("C10", "exploration", "same generator with queries (bank balance/all/supply, wasm raw/smart/contract-info/code-info, custom; nested smart queries) at entry and after own writes on most nodes and as App-level query batches issued twice; oracle: storage unchanged by queries, second answer equals first, every in-contract result equals the reference evaluated on the state at that point of the tree; at the end of every history three queries are repeated around a run of 48 failing queries (contracts that do not exist, strings that are no address). Non-trivial call: trace of >=2 entries; distinct = distinct serialised history"),
     ("C13", "fault_enumeration", "same generator with attribute keys / event types drawn from a boundary grammar (empty, whitespace-only incl. unicode spaces, _x, ' _x', x_, 1-byte types, 2-byte 1-char types) at every entry point and depth, with fault flipping as in C01; oracle: a node is malformed iff the independent predicate says so, and then behaves exactly like a failed call; accepted strings surface unchanged. Non-trivial call: tree containing a malformed node; distinct = distinct serialised history"),
     ("C11", "exploration", "registry profile: code stores (plain, with creator, explicit ids incl. sparse/0/duplicate, duplicate_code), instantiate / instantiate2 (any code incl. unknown, salts from a small pool, labels incl. empty, admins, overdrawn funds, failing init nodes) top-level, via helpers and from contracts, migrations; oracle: returned ids/addresses, CodeInfo, ContractInfo/contract_data and usability of every stored code equal the reference registry. Non-trivial call: trace of >=2 entries; distinct = distinct serialised history"),
     ("C12", "exploration", "registry profile with migrate / update-admin / clear-admin attempts by admins, former admins, strangers and contracts (as sub-messages); oracle: success iff sender is the current admin, state unchanged otherwise, new code serves all later calls, storage kept. Non-trivial call: trace of >=2 entries; distinct = distinct serialised history"),
